@@ -322,7 +322,8 @@ func drawConfig(tp *kernel.Tape, prop, tier string) Config {
 	if prop == "C07" {
 		c.SlowFlush = false // a twin must be forked when the crash DB equals the in-memory state; delayed persistence breaks that premise
 		c.TwinGap = tp.Range("cfg.twingap", 1, 12)
-		c.TwinHorizon = tp.Range("cfg.twinhorizon", 20, 400)
+		c.TwinHorizon = tp.Range("cfg.twinhorizon", 20, 600)
+		c.WStarve = tp.Range("cfg.w.starve7", 2, 8) // lagging nodes hold pipelined next-round state
 	}
 	if prop == "C05" {
 		c.Sync = true
